@@ -19,6 +19,26 @@ def adequate (g : Guards) : Bool :=
   && PyExc.protocolError.caughtBy g.recv
   && PyExc.protocolError.caughtBy g.loop
   && PyExc.protocolError.caughtBy g.member
+  && g.doneSingle
+  && g.doneBatch
+
+/-- `adequate`, clause by clause -/
+theorem adequate_iff (g : Guards) : adequate g = true ↔
+    ([LoadsOutcome.unicodeError, .jsonDecodeError, .recursionError, .intDigitsValueError].all
+      (fun o => match o.exc? with
+        | some e => e.caughtBy g.payload.clause1 || e.caughtBy g.payload.clause2
+        | none => true) = true)
+    ∧ PyExc.typeError.caughtBy g.lookup = true
+    ∧ PyExc.typeError.caughtBy g.sort = true
+    ∧ PyExc.protocolError.caughtBy g.recv = true
+    ∧ PyExc.protocolError.caughtBy g.loop = true
+    ∧ PyExc.protocolError.caughtBy g.member = true
+    ∧ g.doneSingle = true
+    ∧ g.doneBatch = true := by
+  simp only [adequate, Bool.and_eq_true]
+  constructor
+  · rintro ⟨⟨⟨⟨⟨⟨⟨a, b⟩, c⟩, d⟩, e⟩, f⟩, h⟩, i⟩; exact ⟨a, b, c, d, e, f, h, i⟩
+  · rintro ⟨a, b, c, d, e, f, h, i⟩; exact ⟨⟨⟨⟨⟨⟨⟨a, b⟩, c⟩, d⟩, e⟩, f⟩, h⟩, i⟩
 
 /-- an `R` value that is `ok` or a `ProtocolError` -/
 def NoPy {α : Type} (r : R α) : Prop := ∀ e, r ≠ .error (.py e)
@@ -29,8 +49,9 @@ theorem NoPy.proto {α : Type} (e : PErr) : NoPy (Except.error (.proto e) : R α
 
 theorem messageToPayload_noPy (g : Guards) (hg : adequate g = true) (P : Proto) (o : LoadsOutcome) :
     NoPy (messageToPayload g.payload P o) := by
-  simp only [adequate, List.all_cons, List.all_nil, Bool.and_true, Bool.and_eq_true] at hg
-  obtain ⟨⟨⟨⟨⟨⟨h1, h2, h3, h4⟩, _⟩, _⟩, _⟩, _⟩, _⟩ := hg
+  have hp := ((adequate_iff g).1 hg).1
+  simp only [List.all_cons, List.all_nil, Bool.and_true, Bool.and_eq_true] at hp
+  obtain ⟨h1, h2, h3, h4⟩ := hp
   cases o with
   | value v => exact NoPy.ok v
   | unicodeError =>
@@ -151,24 +172,52 @@ theorem processRequestBody_noPy (P : Proto) (kvs : List (Str × J)) (rid : J) :
         simp only at he
         cases he
 
-/-- `_process_request`: an item, or a `ProtocolError` built by `_error(.., send=True, ..)` —
-it carries a single error reply and is not marked as a response -/
+/-- the id an error reply to the payload `p` may carry: `null`, or `p`'s own `id` member -/
+def IdOf (p : J) (rid : J) : Prop :=
+  rid = .null ∨ ∃ kvs, p = .obj kvs ∧ J.lookup kId kvs = some rid
+
+/-- `_message_id` returns the payload's `id` member (or `None` where a missing id is allowed) -/
+theorem messageId_ok_id (P : Proto) (p rid : J) (req : Bool) (h : messageId P p req = .ok rid) :
+    IdOf p rid := by
+  obtain ⟨kvs, rfl⟩ := messageId_ok_obj P p rid req h
+  cases hl : J.lookup kId kvs with
+  | none =>
+    cases P <;> simp only [messageId, v1MessageId, v2MessageId, hl] at h
+    · cases h
+    all_goals
+      split at h
+      · cases h
+      · injection h with h; exact Or.inl h.symm
+  | some r =>
+    refine Or.inr ⟨kvs, rfl, ?_⟩
+    cases P <;> simp only [messageId, v1MessageId, v2MessageId, hl] at h
+    · injection h with h; rw [← h, hl]
+    all_goals
+      split at h
+      · cases h
+      · injection h with h; rw [← h, hl]
+
+/-- `_process_request`: an item, or a `ProtocolError` built by `_error(.., send=True, id)` —
+it carries a single error reply whose id is `None` or the payload's `id` member, and it is not
+marked as a response -/
 theorem processRequest_cases (P : Proto) (p : J) (h : P ≠ .v1 ∨ p.isDict = true) :
     (∃ x, processRequest P p = .ok x) ∨
-    (∃ code msg rid, processRequest P p = .error (.proto (mkError P code msg true rid))) := by
+    (∃ code msg rid, IdOf p rid ∧
+      processRequest P p = .error (.proto (mkError P code msg true rid))) := by
   unfold processRequest
   cases hm : messageId P p false with
   | error x =>
     cases x with
-    | proto e => exact Or.inr ⟨_, _, _, rfl⟩
+    | proto e => exact Or.inr ⟨_, _, _, Or.inl rfl, rfl⟩
     | py e => exact absurd hm (messageId_noPy P p false h e)
   | ok rid =>
+    have hid := messageId_ok_id P p rid false hm
     obtain ⟨kvs, rfl⟩ := messageId_ok_obj P p rid false hm
     simp only
     cases hb : processRequestBody P (.obj kvs) rid with
     | error x =>
       cases x with
-      | proto e => exact Or.inr ⟨_, _, _, rfl⟩
+      | proto e => exact Or.inr ⟨_, _, _, hid, rfl⟩
       | py e => exact absurd hb (processRequestBody_noPy P kvs rid e)
     | ok item => exact Or.inl ⟨_, rfl⟩
 
